@@ -74,8 +74,8 @@ def run(ck):
     ck.level = "proof"
     ck.cov["rule"] = ("histories 'new <size>' + up to 300 write/read/peek/skip/reset/space/begin-amend*-commit|abandon calls; sizes 1..130, "
                       "2^k and 2^k±1 up to 2^16 (thorough: 2^20); request sizes cluster at exactly-fits / one-too-many / 0 / beyond capacity; "
-                      "compared per call: return value, bytes delivered, both heads, the open transaction; non-trivial = distinct history")
-    ck.assumptions += ["memcpy copies bytes", "ring sizes 1..2^31 (0 and >2^31 make next_power_of_two return 0 and are outside the property)"]
+                      "interleaved zix_ring_new calls with sizes it must refuse (0, 2^31+1 .. 2^32-1); compared per call: return value, bytes delivered, both heads, the open transaction; non-trivial = distinct history")
+    ck.assumptions += ["memcpy copies bytes", "ring sizes 1..2^31; 0 and >2^31 make next_power_of_two return 0 and are refused by zix_ring_new (theorem ring_new_refuses_iff, operation newbad)"]
     if not ck.build_driver(): return
     if not ck.prove(["ZixModel.Properties.C05", "ZixModel.Properties.C05History"]):
         ck.report_proof_failure("theorems about the ring model no longer build")
